@@ -13,8 +13,8 @@ One script, instantiated per scheme.
 Hypotheses, where a theorem has any, are typing preconditions of the Go signature that the model's
 untyped request record does not enforce (`cost uint8`, `rounds uint32`) or say that `crypto/rand`
 delivers what it is asked for (bcrypt, argon2: the model would otherwise encode a short salt where
-the Go buffer keeps its zero bytes).  sunmd5's `NewHash` contains a statement the translator does not
-translate (`FStmt.other`): the run is `stuck` there, see `flowNewHash_sunmd5_stuck`.
+the Go buffer keeps its zero bytes).  sunmd5's `NewHash` needs no hypothesis (its `rounds uint32` is
+never converted; the count reaches `Key` and `Marshal` as it is).
 -/
 
 set_option linter.unusedSimpArgs false
@@ -262,16 +262,64 @@ theorem flowNewHash_eq_model_argon2 (r : NewHashReq) (hent : 8 ≤ r.entropy.len
     flow_run
     simp [outcomeToNewHash]
 
-/-! ## sunmd5: an untranslated statement -/
+/-! ## sunmd5: the embedded `saltScheme` literal, the guarded assignments, `&separator` -/
 
 attribute [flowval] tiOf_sunmd5 sunmd5_name
 
-/-- The second statement of `Gen.sunmd5.flowNewHash` is an `FStmt.other` (the `if rounds == 0 { … }
-else { … }` that sets the prefix and the separator): the semantics refuses to guess. -/
-theorem flowNewHash_sunmd5_stuck (r : NewHashReq) :
-    ∃ w, run (prims sunmd5) Gen.sunmd5.flowNewHash (newHashEnv sunmd5 r) ⟨r.entropy, 0⟩ = .stuck w := by
-  unfold Gen.sunmd5.flowNewHash
-  flow_run
-  exact ⟨_, rfl⟩
+/-- `rounds == 0`: `$md5$`, no separator. -/
+theorem flowNewHash_sunmd5_zero (r : NewHashReq) (hr : r.rounds = 0) :
+    outcomeToNewHash (run (prims sunmd5) Gen.sunmd5.flowNewHash (newHashEnv sunmd5 r) ⟨r.entropy, 0⟩) =
+      some (Scheme.newHash sunmd5 r) := by
+  rw [newHash_sunmd5_eq]
+  unfold Gen.sunmd5.flowNewHash nhStrict sunmd5Args sunmd5Salt sunmd5Prefix sunmd5Sep
+  simp only [hr, if_true, if_false]
+  flow_run [hr]
+  generalize hkr : key sunmd5 _ = kr
+  rcases kr with k | e | w | _
+  · have hlen := sumLen_sunmd5 _ _ hkr
+    clear hkr
+    flow_run [writeBuf_exact _ _ hlen]
+    rw [marshal_canon_sunmd5 (_ :: _)]
+    simp [fieldIndex_sunmd5_HashPrefix, fieldIndex_sunmd5_Rounds, fieldIndex_sunmd5_Salt, fieldIndex_sunmd5_Separator, fieldIndex_sunmd5_Sum, Codec.fieldVal, getVal, zeroOf, sunmd5_HashPrefix, sunmd5_Rounds, sunmd5_Salt, sunmd5_Separator, sunmd5_Sum, sunmd5Vals, Gen.sunmd5.DefaultSaltLength]
+    generalize marshal sunmd5TI _ = mr
+    rcases mr with e | s
+    all_goals
+      flow_run
+      simp [outcomeToNewHash, Gen.sunmd5.DefaultSaltLength]
+  all_goals
+    clear hkr
+    flow_run
+    simp [outcomeToNewHash]
+
+/-- `rounds != 0`: `$md5,`, `Separator = &separator`. -/
+theorem flowNewHash_sunmd5_nonzero (r : NewHashReq) (hr : r.rounds ≠ 0) :
+    outcomeToNewHash (run (prims sunmd5) Gen.sunmd5.flowNewHash (newHashEnv sunmd5 r) ⟨r.entropy, 0⟩) =
+      some (Scheme.newHash sunmd5 r) := by
+  rw [newHash_sunmd5_eq]
+  unfold Gen.sunmd5.flowNewHash nhStrict sunmd5Args sunmd5Salt sunmd5Prefix sunmd5Sep
+  simp only [hr, if_true, if_false]
+  flow_run [hr]
+  generalize hkr : key sunmd5 _ = kr
+  rcases kr with k | e | w | _
+  · have hlen := sumLen_sunmd5 _ _ hkr
+    clear hkr
+    flow_run [writeBuf_exact _ _ hlen]
+    rw [marshal_canon_sunmd5 (_ :: _)]
+    simp [fieldIndex_sunmd5_HashPrefix, fieldIndex_sunmd5_Rounds, fieldIndex_sunmd5_Salt, fieldIndex_sunmd5_Separator, fieldIndex_sunmd5_Sum, Codec.fieldVal, getVal, zeroOf, sunmd5_HashPrefix, sunmd5_Rounds, sunmd5_Salt, sunmd5_Separator, sunmd5_Sum, sunmd5Vals, Gen.sunmd5.DefaultSaltLength]
+    generalize marshal sunmd5TI _ = mr
+    rcases mr with e | s
+    all_goals
+      flow_run
+      simp [outcomeToNewHash, Gen.sunmd5.DefaultSaltLength]
+  all_goals
+    clear hkr
+    flow_run
+    simp [outcomeToNewHash]
+theorem flowNewHash_eq_model_sunmd5 (r : NewHashReq) :
+    outcomeToNewHash (run (prims sunmd5) Gen.sunmd5.flowNewHash (newHashEnv sunmd5 r) ⟨r.entropy, 0⟩) =
+      some (Scheme.newHash sunmd5 r) := by
+  by_cases hr : r.rounds = 0
+  · exact flowNewHash_sunmd5_zero r hr
+  · exact flowNewHash_sunmd5_nonzero r hr
 
 end GoCrypt.FlowVal
